@@ -217,6 +217,18 @@ def h_melody(c):
     c.check(c.If(e < 0, c.eq(r, e),
                  c.And(r >= lo, r < hi, c.eq((r - e - k) % 12, 0))),
             'specials untouched; notes folded into [min,max) keeping e+k mod 12')
+    c.check(c.Implies(c.And(e >= 0, e + k >= lo, e + k < hi), c.eq(r, e + k)),
+            'a note whose target is inside [min,max) moves by exactly k')
+  # the documented default range is every MIDI pitch, 0..127
+  m5 = ml.Melody(list(ev))
+  m5.transpose(k)
+  for e, r in zip(ev, list(m5)):
+    c.check(c.If(e < 0, c.eq(r, e),
+                 c.And(r >= 0, r <= 127, c.eq((r - e - k) % 12, 0),
+                       c.Implies(c.And(e + k >= 0, e + k <= 127),
+                                 c.eq(r, e + k)))),
+            'default range: notes move by exactly k wherever e+k is a MIDI '
+            'pitch')
   m.transpose(-k, lo, hi)
   for e, r in zip(ev, list(m)):
     c.check(c.If(e < 0, c.eq(r, e), c.eq((r - e) % 12, 0)),
@@ -262,8 +274,10 @@ def h_progression(c):
   ev = list(sheet.melody)
   sheet.transpose(k)
   for e, r in zip(ev, list(sheet.melody)):
-    c.check(c.If(e < 0, c.eq(r, e), c.And(r >= 0, r < 128,
-                                          c.eq((r - e - k) % 12, 0))),
+    c.check(c.If(e < 0, c.eq(r, e),
+                 c.And(r >= 0, r < 128, c.eq((r - e - k) % 12, 0),
+                       c.Implies(c.And(e + k >= 0, e + k < 128),
+                                 c.eq(r, e + k)))),
             'lead sheet melody moved by k (folded into 0..127)')
   for f, g in zip(figs, list(sheet.chords)):
     if f != 'N.C.':
